@@ -4,7 +4,8 @@
 cd "$(dirname "$0")/.."
 P=${1:-4}
 ls -d seeded/*/ | sed 's#/$##' | xargs -P "$P" -I{} bash -c '
-  d={}; prop=$(python3 -c "import json,sys; m=json.load(open(sys.argv[1]+\"/meta.json\")); print(m.get(\"check_with\", m[\"property\"]))" $d)
+  d={}; if python3 -c "import json,sys; sys.exit(0 if json.load(open(sys.argv[1]+\"/meta.json\")).get(\"obsolete_since\") else 1)" $d; then echo "== $(basename $d) OBSOLETE (no longer breaks the property on the current tree; see meta.json) violations=n/a"; exit 0; fi
+  prop=$(python3 -c "import json,sys; m=json.load(open(sys.argv[1]+\"/meta.json\")); print(m.get(\"check_with\", m[\"property\"]))" $d)
   out=$(tools/run_seeded_wt.sh $d "$prop" 2>&1 | grep "^== ")
   echo "$out"'  | tee /tmp/seeded_regression.out
 if grep -q "violations=0" /tmp/seeded_regression.out; then echo "MISSED:"; grep "violations=0" /tmp/seeded_regression.out; exit 1; fi
